@@ -25,6 +25,24 @@ func genC06(o *hx.Out, tier string) {
 		}
 		return frame.NewV2Key(b)
 	}
+	// a key is a copy of the bytes it was made from: what the caller does with its own buffer
+	// afterwards (wipes it, reuses it) does not change the key
+	for i := 0; i < 6; i++ {
+		orig := make([]byte, 32)
+		r.Read(orig)
+		good := frame.NewV2Key(append([]byte(nil), orig...))
+		buf := append([]byte(nil), orig...)
+		key := frame.NewV2Key(buf)
+		for j := range buf {
+			buf[j] = byte(i * j) // the caller's buffer is used for something else
+		}
+		f := randFrame(r, true, true).(*frame.V2Frame)
+		f.Signature = f.GenerateSignature(good)
+		if bs, err := writeFrame(nil, f); err == nil {
+			cs := one(bs)
+			o.Add("key made from a buffer that is reused afterwards", hx.ReadAll(cs, nil, key, nil), "fread", "-", hx.Hex(orig), hx.ChunksText(cs))
+		}
+	}
 	for i := 0; i < nfr; i++ {
 		key := mkKey()
 		var fr frame.Frame
